@@ -64,8 +64,6 @@ def grid_from_mesh(m, width=None, extra=None, layout="C", convention=None):
         lon, lat = (np.array(a) for a in m.lonlat32)
     else:
         lon, lat = m.lonlat()
-    if __import__("os").environ.get("UXMON_F32_EXPERIMENT") and getattr(m, "lonlat32", None) is None:
-        lon, lat = np.asarray(lon, dtype=np.float32), np.asarray(lat, dtype=np.float32)
     fillv, start = convention if convention is not None else (INT_FILL, 0)
     conn = m.padded(width=width)
     extra = dict(extra or {})
